@@ -485,6 +485,47 @@ func readingSubscriberBody(name string, coll bool, writes int) func() {
 	}
 }
 
+// the same subscriber while the item is updated, DELETED and added again: every kind of write delivers its event
+// without holding anything the subscriber's own reads need.
+func readingSubscriberDeleteBody(name string) func() {
+	return func() {
+		ctx, cancel := context.WithCancel(context.Background())
+		defer cancel()
+		var received []string
+		var werr []string
+		col := resource.NewCollection(resource.WithInitialRecord("a", msg(0)), resource.WithInitialRecord("b", msg(0)))
+		ch := col.Pull(ctx, resource.WithBackpressure(true), resource.WithUpdatesOnly(true))
+		go func() {
+			for c := range ch {
+				col.Get("a")
+				col.List()
+				received = append(received, c.ChangeType.String()+":"+c.Id+":"+show(c.NewValue))
+			}
+		}()
+		note := func(what string, err error) {
+			if err != nil {
+				werr = append(werr, what+": "+err.Error())
+			}
+		}
+		_, err := col.Update("a", msg(1))
+		note("Update(a,1)", err)
+		_, err = col.Delete("b")
+		note("Delete(b)", err)
+		_, err = col.Delete("a")
+		note("Delete(a)", err)
+		_, err = col.Add("a", msg(3))
+		note("Add(a,3)", err)
+		verifrt.WaitIdle()
+		if len(werr) > 0 || verifrt.FiredTimers() > 0 {
+			verifrt.Logf("FAIL reading-subscriber-write-error %s ## the subscriber never stopped receiving, yet: %v (timers fired: %d); received %v", name, werr, verifrt.FiredTimers(), received)
+		}
+		if want := "[UPDATE:a:1 REMOVE:b:- REMOVE:a:- ADD:a:3]"; fmt.Sprint(received) != want {
+			verifrt.Logf("FAIL reading-subscriber-dropped %s ## received %v, written %s", name, received, want)
+		}
+		verifrt.Logf("OUT received=%v errs=%d", received, len(werr))
+	}
+}
+
 // ---- harness D: the excess components alone
 func componentBody(name string, seq []ev, merge bool, closeAfter bool) func() {
 	return func() {
@@ -682,6 +723,10 @@ func main() {
 		for n := 2; n <= 3; n++ {
 			name := fmt.Sprintf("%s-backpressure/subscriber-reads-between-receives/n=%d", map[bool]string{false: "value", true: "coll"}[coll], n)
 			h.Sched(name, -1, -1, readingSubscriberBody(name, coll, n), hx.StdOracle)
+			if coll && n == 2 {
+				name = "reading-subscriber/collection/update, delete, delete, add"
+				h.Sched(name, -1, -1, readingSubscriberDeleteBody(name), hx.StdOracle)
+			}
 		}
 	}
 	for w := 2; w <= 3; w++ {
